@@ -6,6 +6,7 @@ import (
 	"math/big"
 	"strings"
 	"time"
+	"unicode/utf8"
 
 	apifu "github.com/ccbrown/api-fu"
 	"github.com/ccbrown/api-fu/pagination"
@@ -30,6 +31,10 @@ type Case struct {
 	Walk    *TWalk `json:"walk,omitempty"`
 	Q       *QCase `json:"queries,omitempty"`
 	Codec   *TEdge `json:"codec,omitempty"`
+	// kind multi: several resolutions of one connection field in one request (multi.go)
+	Multi *TMulti `json:"multi,omitempty"`
+	// kind codectie: one codec operation on a TimeBasedCursor, model against code (codec.go)
+	CodecTie *TCodecTie `json:"codec_tie,omitempty"`
 }
 
 type TWalk struct {
@@ -110,6 +115,10 @@ func curArgS(a *CurArg) (hx.Sexp, string) {
 	c, ok, p := decode(a.S)
 	if p != "" {
 		return hx.Sexp{}, "DeserializeCursor panicked on " + fmt.Sprintf("%q", a.S) + ": " + p
+	}
+	if utf8.ValidString(a.S) && (!ok || utf8.ValidString(c.Id)) {
+		// the driver decodes the string itself with the codec model
+		return hx.N("s", hx.A(a.S), hx.A("model")), ""
 	}
 	if !ok {
 		return hx.N("s", hx.A(a.S), hx.A("invalid")), ""
@@ -428,6 +437,11 @@ func (h *harness) evalWalk(c Case) failure {
 	var visited []TEdge
 	var cur *CurArg
 	pages := 0
+	var realPages [][]TEdge // in the order visited
+	var sent []string       // the cursor strings the client sent, in order
+	tbl := []hx.Sexp{}
+	tblSeen := map[string]string{}
+	tblConsistent := true
 	for {
 		if pages > len(c.D)+2 {
 			return failure{fmt.Sprintf("the walk does not terminate: %d pages over %d edges", pages, len(c.D)), "property", "walk"}
@@ -447,6 +461,21 @@ func (h *harness) evalWalk(c Case) failure {
 		}
 		pages++
 		page, _ := pageOf(c.D, o)
+		realPages = append(realPages, page)
+		if cur != nil {
+			sent = append(sent, cur.S)
+		}
+		for _, gc := range o.Calls {
+			k, v := callS(gc).String(), edgesS(gc.Reply).String()
+			if old, ok := tblSeen[k]; ok {
+				if old != v {
+					tblConsistent = false // a seeded tie-break answered the same range differently on another page
+				}
+				continue
+			}
+			tblSeen[k] = v
+			tbl = append(tbl, hx.L(callS(gc), edgesS(gc.Reply)))
+		}
 		next := func(s string) *CurArg {
 			if d, ok, _ := decode(s); ok {
 				return &CurArg{Kind: "emitted", T: d.T, Id: d.Id, S: s}
@@ -477,6 +506,44 @@ func (h *harness) evalWalk(c Case) failure {
 		return failure{fmt.Sprintf("walk with page size %d visited %v, the matching edges are %v", wk.N, ids(visited), ids(want)), "property", "walk"}
 	}
 	h.run.CountN("walk-pages", pages)
+	// the walk tie: C09/Walk.lean's client (the subject of time_walk_exact_codec) run by the driver over
+	// the time-based connection with the concrete codec model, against the walk just made: same pages,
+	// same cursor strings sent. (Skipped when the getter answered one range in two ways: the model's
+	// getter is a function of the range.)
+	if h.model != nil && tblConsistent {
+		dir := "fwd"
+		inOrder := realPages
+		if !wk.Forward {
+			dir = "bwd"
+			inOrder = nil
+			for i := len(realPages) - 1; i >= 0; i-- {
+				inOrder = append(inOrder, realPages[i])
+			}
+		}
+		var ps, ss []hx.Sexp
+		for _, p := range inOrder {
+			ps = append(ps, edgesS(p))
+		}
+		for _, x := range sent {
+			ss = append(ss, hx.A(x))
+		}
+		canon := hx.N("ok", hx.L(ps...), hx.N("sent", ss...)).String()
+		line := hx.N("twalk", hx.A(dir), hx.N("table", tbl...), hx.I(int64(len(c.D))), hx.I(int64(wk.N)), hx.I(int64(len(c.D)+4)),
+			boundAtom(wk.AtOrAfter, wk.AtOrAfterText), boundAtom(wk.BeforeT, wk.BeforeText)).String()
+		rep, err := h.model.Ask(line)
+		if err != nil {
+			return failure{"model driver failed: " + err.Error(), "correspondence", "model"}
+		}
+		if h.verbose {
+			fmt.Printf("walk: implementation %s\nwalk: model          %s\n", canon, rep)
+		}
+		h.run.Count("walk-tie")
+		if rep != canon {
+			return failure{fmt.Sprintf("walk (pages in connection order, cursor strings sent): implementation %s, model %s", canon, rep), "correspondence", "walk"}
+		}
+	} else if h.model != nil {
+		h.run.Count("walk-tie-skipped:inconsistent-getter-table")
+	}
 	return failure{}
 }
 
@@ -608,6 +675,16 @@ func (h *harness) eval(c Case) failure {
 		return h.evalQueries(c)
 	case "codec":
 		return h.evalCodec(c)
+	case "multi":
+		if c.Multi == nil || len(c.Multi.Sets) == 0 || len(c.Multi.Reqs) == 0 {
+			return failure{"multi case without resolutions", "correspondence", "model"}
+		}
+		return h.evalMulti(c)
+	case "codectie":
+		if c.CodecTie == nil {
+			return failure{"codectie case without a tie", "correspondence", "model"}
+		}
+		return h.evalCodecTie(c)
 	}
 	return failure{"unknown case kind " + c.Kind, "correspondence", "model"}
 }
@@ -804,6 +881,25 @@ func (h *harness) shrink(c Case, f failure, key string) (Case, failure) {
 			},
 			func(d *Case) bool { return d.Req != nil && dec1(&d.Req.First) },
 			func(d *Case) bool { return d.Req != nil && dec1(&d.Req.Last) },
+			func(d *Case) bool { // fewer explicit nulls: drop the highest one
+				if d.Req == nil || d.Req.NullMask == 0 {
+					return false
+				}
+				for b := 5; b >= 0; b-- {
+					if d.Req.NullMask&(1<<b) != 0 {
+						d.Req.NullMask &^= 1 << b
+						return true
+					}
+				}
+				return false
+			},
+			func(d *Case) bool { // … or the lowest one
+				if d.Req == nil || d.Req.NullMask == 0 {
+					return false
+				}
+				d.Req.NullMask &= d.Req.NullMask - 1
+				return true
+			},
 			func(d *Case) bool {
 				if d.Req == nil || !d.Req.SelTC {
 					return false
@@ -901,6 +997,14 @@ func nontrivial(c Case) bool {
 		return len(c.D) > c.Walk.N
 	case "queries":
 		return c.Q.After != nil || c.Q.Before != nil
+	case "multi":
+		n := 0
+		for _, s := range c.Multi.Sets {
+			if len(s) > 0 {
+				n++
+			}
+		}
+		return n >= 2
 	}
 	return false
 }
@@ -966,6 +1070,10 @@ func (h *harness) check(c Case) {
 }
 
 func (h *harness) record(c Case, f failure) {
+	if c.Kind == "codectie" && c.CodecTie != nil {
+		h.recordTie(*c.CodecTie, f, "")
+		return
+	}
 	key, _ := json.Marshal(c)
 	h.run.Case(string(key), nontrivial(c))
 	h.count(c, f)
@@ -980,12 +1088,16 @@ func (h *harness) record(c Case, f failure) {
 		h.run.Oblige("oracle: replies are read-only — after a request served from windows of the application's own store a follow-up request sees the whole data set", "oracle", 1, !(propFail && f.Mode == "store"), f.What)
 		h.run.Oblige("oracle: response independent of the getter's delivery (sync/promise/mixed) and of nil vs empty replies", "oracle", 1, !(propFail && f.Mode == "delivery"), f.What)
 	case "walk":
-		h.run.Oblige("oracle: forward/backward walks visit every matching edge exactly once (getter breaking ties by id)", "oracle", 1, f.ok() || fk != "", f.What)
+		h.run.Oblige("oracle: forward/backward walks visit every matching edge exactly once (getter breaking ties by id)", "oracle", 1, f.ok() || fk != "" || f.Kind == "correspondence", f.What)
+		h.run.Oblige("correspondence: the walk = model walkForward/walkBackward over the time-based connection with the concrete codec (pages, cursor strings sent)", "correspondence", 1, f.Kind != "correspondence", f.What)
 	case "queries":
 		h.run.Oblige("correspondence: pagination.TimeBasedRangeQueries = model timeBasedRangeQueries", "correspondence", 1, f.Kind != "correspondence", f.What)
 		h.run.Oblige("oracle: range queries stay inside the time window and cover every instant that can hold a matching edge", "oracle", 1, !propFail, f.What)
 	case "codec":
 		h.run.Oblige("oracle: Deserialize(Serialize(c)) = c for TimeBasedCursor", "oracle", 1, f.ok(), f.What)
+	case "multi":
+		h.run.Oblige("correspondence: every resolution of a connection field resolved several times in one request (list of parents, aliases with a custom argument) = model resolveTime for its own data set and getter calls", "correspondence", 1, f.Kind != "correspondence", f.What)
+		h.run.Oblige("oracle: every resolution of a connection field resolved several times in one request = TimeRef over its OWN data set (filters, cover, flags)", "oracle", 1, !propFail, f.What)
 	}
 	if f.ok() {
 		return
@@ -1001,6 +1113,11 @@ func (h *harness) record(c Case, f failure) {
 	h.shrunk[sk]++
 	if h.shrunk[sk] > 3 {
 		h.run.Violate(f.Kind, f.What, fk, f.Kind == "correspondence", c)
+		return
+	}
+	if c.Kind == "multi" {
+		sc, f2 := h.shrinkMulti(c, f)
+		h.run.Violate(f2.Kind, f2.What, fk, f2.Kind == "correspondence", sc)
 		return
 	}
 	sc, f2 := h.shrink(c, f, fk)
